@@ -1514,8 +1514,12 @@ class Node:
 
         # Remove pending answer tracking; we cannot know if the peer will
         # persist its hop-by-hop IDs over reconnect.
-        if conn.host_identity in self._peer_waiting_answer:
-            del self._peer_waiting_answer[conn.host_identity]
+        # The requests that were still waiting will never be answered, their
+        # retransmission bookkeeping goes as well.
+        waiting = self._peer_waiting_answer.pop(conn.host_identity, {})
+        for hop_by_hop_id, end_to_end_id in waiting:
+            self._origin_waiting_answer.pop(
+                f"{hop_by_hop_id}:{end_to_end_id}", None)
 
         # Check if this was the last available peer for an app and clear app
         # ready flag if so, resulting in `wait_for_ready` to block again.
